@@ -23,7 +23,7 @@ func init() {
 		Level: "exploration",
 		Rule: "schedules: all executions within the deviation bound (delay bounding, quick 2, thorough 3; coalescing timers firing early count as deviations) of a producer thread driving 8-9 member transitions of two members through the real handlers of a real Serf node while the real pipeline goroutines (snapshot tee and stream, internal-query filter, member coalescer, user coalescer) run, for the four configurations {snapshot on/off} x {coalescing on/off} and three transition scripts (flapping, graceful leave and rejoin, prune of a failed member); the application's channel is read at the end; non-trivial = at least one non-default choice",
 		Assumptions: []string{
-			"memberlist notifications are serial (one producer thread), as under memberlist's node lock",
+			"memberlist's node notifications are serial (one producer thread), as under memberlist's node lock; gossip messages arrive on another thread (two-producers scenarios)",
 			"the reference per-member sequence is the sequence of status changes the producer caused (one event kind per transition)",
 			"buffers are large enough that no stage drops (checked: the last event must then match the member's current status)",
 		},
@@ -59,6 +59,7 @@ func c16run(ctx *vc.Ctx) {
 		{"join", "b", "member-join"}, {"fail", "c", "member-failed"}, {"prune", "c", "member-leave"},
 	}
 	c16backpressure(ctx, bound)
+	c16twoProducers(ctx, bound)
 	fb := 0
 	if ctx.Thorough() {
 		fb = 1
@@ -281,4 +282,99 @@ func c16backpressure(ctx *vc.Ctx, bound int) {
 		return fmt.Sprint(got), "", ""
 	}
 	ctx.Explore(vc.ExploreOpts{Name: "snapshot-stage/backpressure", Bound: bound, MaxSteps: 100000}, body, check)
+}
+
+// c16twoProducers: memberlist's node notifications and gossip messages are delivered by different
+// goroutines. The failure notification for b (alive -> failed) races with a leave intent about b
+// (alive -> leaving, or failed -> left), likewise an alive notification races with a leave intent.
+// Whatever the interleaving, the events for b must be one of the orders in which b's status can
+// have changed, and the last one must match b's status.
+func c16twoProducers(ctx *vc.Ctx, bound int) {
+	type prog struct {
+		name    string
+		pre     []string // before the race: "dead", "leave"
+		t1, t2  string   // the two racing deliveries: dead | alive | leave | prune
+		allowed [][]string
+	}
+	progs := []prog{
+		{"dead(b) || leave-intent(b)", nil, "dead", "leave", [][]string{{"member-join", "member-failed", "member-leave"}, {"member-join", "member-leave"}}},
+		{"alive(b) || leave-intent(b), b failed before", []string{"dead"}, "alive", "leave", [][]string{{"member-join", "member-failed", "member-leave", "member-join"}, {"member-join", "member-failed", "member-join"}}},
+	}
+	for _, p := range progs {
+		p := p
+		var got []string
+		var status string
+		body := func() {
+			vsched.Branching(false)
+			vsched.StepsIn("serf.(*Serf).handleNodeLeave", "serf.(*Serf).handleNodeJoin", "serf.(*Serf).handleNodeLeaveIntent", "serf.(*Serf).handleNodeUpdate")
+			got, status = nil, ""
+			n, err := world.NewNode("a", 0)
+			if err != nil {
+				panic(err)
+			}
+			vsched.SetHorizon(vsched.Elapsed() + int64(5*time.Second))
+			lt := uint64(10)
+			do := func(op string) {
+				switch op {
+				case "alive":
+					n.Events().NotifyJoin(n.MLNode("b", 1, map[string]string{"v": "1"}))
+				case "dead":
+					n.Events().NotifyLeave(n.MLNode("b", 1, nil))
+				case "update":
+					n.Events().NotifyUpdate(n.MLNode("b", 1, map[string]string{"v": "2"}))
+				case "leave":
+					lt += 5
+					n.Delegate().NotifyMsg(serf.VEncode(serf.VMsgLeave, &serf.VMessageLeave{LTime: serf.LamportTime(lt), Node: "b"}))
+				}
+			}
+			do("alive")
+			for _, op := range p.pre {
+				do(op)
+			}
+			vsched.Quiesce()
+			vsched.Branching(true)
+			h1 := vsched.Spawn("memberlist", func() { do(p.t1) })
+			h2 := vsched.Spawn("gossip", func() { do(p.t2) })
+			h1.Join()
+			h2.Join()
+			vsched.Branching(false)
+			vsched.Quiesce()
+			for _, e := range n.DrainEvents() {
+				if me, ok := e.(serf.MemberEvent); ok {
+					for _, m := range me.Members {
+						if m.Name == "b" {
+							got = append(got, me.Type.String())
+						}
+					}
+				}
+			}
+			status = n.MemberStatus()["b"]
+			n.S.Shutdown()
+		}
+		check := func(x *vsched.Exec) (string, string, string) {
+			if len(x.Panics) > 0 {
+				return "panic", "two-producers: panic " + x.Panics[0].Frame, x.Panics[0].Value + "\n" + x.Panics[0].Stack
+			}
+			if !x.RootDone {
+				return "stuck", "two-producers: deadlock", fmt.Sprintf("blocked %+v", x.Blocked)
+			}
+			g := strings.Join(got, ",")
+			ok := false
+			for _, a := range p.allowed {
+				if strings.Join(a, ",") == g {
+					ok = true
+				}
+			}
+			if !ok {
+				return "order:" + g, "two-producers: member events in an order in which the member's status cannot have changed", fmt.Sprintf("%s: the application received %v for b (status now %s); possible orders of b's status changes: %v", p.name, got, status, p.allowed)
+			}
+			last := got[len(got)-1]
+			want := map[string]string{"member-join": "alive", "member-update": "alive", "member-failed": "failed", "member-leave": "left"}[last]
+			if want != status && !(want == "alive" && status == "leaving") { // a leave intent alone changes the status to leaving without an event
+				return "last:" + g, "two-producers: last event does not match current status", fmt.Sprintf("%s: the application received %v for b, b is %s", p.name, got, status)
+			}
+			return g + "|" + status, "", ""
+		}
+		ctx.Explore(vc.ExploreOpts{Name: "two-producers/" + p.name, Bound: bound, MaxSteps: 100000}, body, check)
+	}
 }
